@@ -25,9 +25,9 @@ func (C16) Plan(tier string) core.Plan {
 
 func (C16) Info() core.Info {
 	return core.Info{
-		Rule: "exact-match worlds over distinct parameter types (so the designated option of every parameter is unique) whose option list is transformed by the PRNG: random casing of names on both sides, duplicates of a key at random distance, a split into NewFunc defaults and Call options with overlapping keys, interleaved nil values; history = the call, the same call with the distinct-key groups permuted (reusing the same option values), and the call with a nil option inserted. Each under 6-16 seeded iteration-order schedules (the option list lands in four Go maps that are then ranged). Oracle: each parameter's token is the one of the option the rules designate (last occurrence in defaults-then-call order); the permuted call delivers the same tokens; the nil-option call returns an error and runs nothing. Non-trivial: some transformation applied; distinct = distinct (world shape, event-log hash)",
+		Rule: "exact-match worlds over distinct parameter types (so the designated option of every parameter is unique) whose option list is transformed by the PRNG: random casing of names on both sides, duplicates of a key at random distance, a split into NewFunc defaults and Call options with overlapping keys, interleaved nil values, options with the same name/type under another subtype (distinct keys), and sometimes a second Func of the same signature whose defaults are a sub-slice (prefix) of the first one's defaults slice and which is called first; history = the call, the same call with the distinct-key groups permuted (reusing the same option values), and the call with a nil option inserted. Each under 6-16 seeded iteration-order schedules (the option list lands in four Go maps that are then ranged). Oracle: each parameter's token is the one of the option the rules designate (last occurrence in defaults-then-call order); the permuted call delivers the same tokens; the nil-option call returns an error and runs nothing. Non-trivial: some transformation applied; distinct = distinct (world shape, event-log hash)",
 		Assumptions: []string{"parameter types are pairwise distinct within a target, which makes the designated option of a type-only parameter unique"},
-		Probes:      []string{"c16_calls", "c16_duplicate_keys", "c16_default_overridden", "c16_default_used", "c16_mixed_case", "c16_nil_value_present", "c16_nil_option_calls", "c16_permuted_calls", "s1_nonidentity_perms"},
+		Probes:      []string{"c16_calls", "c16_duplicate_keys", "c16_default_overridden", "c16_default_used", "c16_mixed_case", "c16_nil_value_present", "c16_nil_option_calls", "c16_permuted_calls", "c16_other_subtype_key", "c16_prefix_sharing_func_called", "s1_nonidentity_perms"},
 		Real:        realComponents,
 		Simulated:   simComponents,
 	}
@@ -94,6 +94,23 @@ func (C16) Gen(r *simrt.RNG, tier string) core.Case {
 			}
 		}
 	}
+	// same name (or type), other subtype: a distinct key that must not disturb the exact one
+	for _, sl := range t.In {
+		if sl.Sub != "" && r.Chance(1, 2) {
+			l := sl.Label
+			if l.Sub == world.Subs[0] {
+				l.Sub = world.Subs[1]
+			} else {
+				l.Sub = world.Subs[0]
+			}
+			ai := mk(l)
+			if r.Chance(1, 3) {
+				defaults = append(defaults, ai)
+			} else {
+				call = append(call, ai)
+			}
+		}
+	}
 	// nil values interleaved
 	if r.Chance(1, 3) {
 		a := world.ArgSpec{Kind: world.ArgNilValue}
@@ -146,6 +163,20 @@ func (C16) Gen(r *simrt.RNG, tier string) core.Case {
 		}
 	}
 	w.Ops = append(w.Ops, world.Op{Kind: world.OpCall, Target: 0, Args: twin})
+	// a second Func built from a prefix of the same defaults slice, called first
+	if len(defaults) >= 2 && r.Chance(1, 3) {
+		k := 1 + r.Intn(len(defaults)-1)
+		t2 := w.Parties[0]
+		t2.Defaults = append([]int{}, defaults[:k]...)
+		t2.SharePrefixOf = 1
+		w.Parties = append(w.Parties, t2)
+		// its call supplies what the shorter defaults lack (fresh option values)
+		var args2 []int
+		for _, sl := range t.In {
+			args2 = append(args2, mk(sl.Label))
+		}
+		w.Ops = append([]world.Op{{Kind: world.OpCall, Target: 1, Args: args2}}, w.Ops...)
+	}
 	// nil option
 	if r.Chance(1, 2) {
 		w.Args = append(w.Args, world.ArgSpec{Kind: world.ArgNilOpt})
@@ -159,8 +190,15 @@ func (C16) Gen(r *simrt.RNG, tier string) core.Case {
 }
 
 func c16Valid(w world.World) bool {
-	if len(w.Faults) != 0 || len(w.Parties) != 1 || len(w.Parties[0].In) == 0 {
+	if len(w.Faults) != 0 || len(w.Parties) < 1 || len(w.Parties) > 2 || len(w.Parties[0].In) == 0 {
 		return false
+	}
+	if len(w.Parties) == 2 {
+		// a second Func of the same signature whose defaults are a prefix of the first one's
+		a, b := w.Parties[0], w.Parties[1]
+		if b.SharePrefixOf != 1 || a.String() != b.String() || a.HasErr != b.HasErr {
+			return false
+		}
 	}
 	seen := map[int]bool{}
 	for _, s := range w.Parties[0].In {
@@ -176,10 +214,14 @@ func c16Valid(w world.World) bool {
 			return false
 		}
 		if a.Kind == world.ArgNamed || a.Kind == world.ArgTyped {
-			// only keys of the parameters (no distractors: the designated option is unique)
+			// only keys of the parameters, or the same name/type under another subtype
+			// (a distinct key): the designated option of every parameter stays unique
 			ok := false
 			for _, s := range w.Parties[0].In {
 				if s.Label == a.Label {
+					ok = true
+				}
+				if s.Sub != "" && a.Label.Sub != "" && a.Label.Sub != s.Sub && s.Name == a.Label.Name && s.Type == a.Label.Type {
 					ok = true
 				}
 			}
@@ -189,7 +231,7 @@ func c16Valid(w world.World) bool {
 		}
 	}
 	for _, o := range w.Ops {
-		if o.Kind != world.OpCall || o.Target != 0 {
+		if o.Kind != world.OpCall || o.Target < 0 || o.Target >= len(w.Parties) {
 			return false
 		}
 	}
@@ -206,7 +248,6 @@ func (C16) Run(c core.Case, ctx *core.Ctx) []core.Violation {
 		return nil
 	}
 	sh := world.ShapeHash(w)
-	t := w.Parties[0]
 	var out []core.Violation
 	add := func(class, detail string) {
 		out = append(out, core.Violation{Class: class, Site: "Call", Detail: detail})
@@ -220,11 +261,17 @@ func (C16) Run(c core.Case, ctx *core.Ctx) []core.Violation {
 			return nil
 		}
 		var firstTokens []uint64
+		twinDone := false
 		for oi, res := range rt.Results {
 			if res == nil {
 				continue
 			}
 			view := model.ViewOf(&w, oi)
+			tgt := w.Ops[oi].Target
+			t := w.Parties[tgt]
+			if tgt == 1 {
+				ctx.St.Inc("c16_prefix_sharing_func_called")
+			}
 			if !res.Returned {
 				if view.HasNilOpt {
 					out = append(out, core.Violation{Class: res.PanicClass, Site: res.PanicSite, Detail: "a nil option made the call panic: " + trunc(res.PanicDetail)})
@@ -261,6 +308,10 @@ func (C16) Run(c core.Case, ctx *core.Ctx) []core.Violation {
 							defaultSeen = true
 						}
 					}
+					if (a.Kind == world.ArgNamed || a.Kind == world.ArgTyped) && a.Label != s.Label && a.Label.Name == s.Name && a.Label.Type == s.Type {
+						ctx.St.Inc("c16_other_subtype_key")
+						transformed = true
+					}
 					if a.Kind == world.ArgNilValue {
 						ctx.St.Inc("c16_nil_value_present")
 						transformed = true
@@ -295,7 +346,7 @@ func (C16) Run(c core.Case, ctx *core.Ctx) []core.Violation {
 			}
 			var texec *world.ExecRec
 			for i := res.LogFrom; i < res.LogTo; i++ {
-				if rt.Log[i].Party == 0 {
+				if rt.Log[i].Party == tgt {
 					texec = &rt.Log[i]
 				}
 			}
@@ -312,9 +363,13 @@ func (C16) Run(c core.Case, ctx *core.Ctx) []core.Violation {
 					add("wrong-option-instance-injected", fmt.Sprintf("op %d schedule %d: parameter %s must receive the value of option %d (last occurrence of its key), received that of %s", oi, k, s.Label, want[pi], gl))
 				}
 			}
-			if oi == 0 {
+			if tgt != 0 {
+				continue
+			}
+			if firstTokens == nil {
 				firstTokens = append([]uint64{}, texec.In...)
-			} else if oi == 1 && firstTokens != nil {
+			} else if !twinDone {
+				twinDone = true
 				ctx.St.Inc("c16_permuted_calls")
 				for pi := range texec.In {
 					if pi < len(firstTokens) && texec.In[pi] != firstTokens[pi] {
